@@ -814,9 +814,26 @@ func runC09(res *Result, tier string, seed int64, replay string) {
 			return d
 		}
 		mk := func(tagName, v string) *Node { return (&Node{Tag: tagName}).Set("css-class", v) }
-		noop(withHead(mk(tag, "zz9")), find, "css-class", "zz9", "tag-default", informative)
-		noop(withHead(mk("mj-all", "zz9")), find, "css-class", "zz9", "mj-all", informative)
-		noop(withHead(mk("mj-all", "zz8"), mk(tag, "zz9")), find, "css-class", "zz9", "tag-default>mj-all", informative)
+		// the value to write on the element comes from the Lean Model of GetCSSClass (Resolve.accCssClass, 5th field of `res`)
+		cssWinner := func(tagV, allV string) string {
+			opt := func(v string) string {
+				if v == "" {
+					return "-"
+				}
+				return hexOf(v)
+			}
+			resp, err := drv.Ask("res -||" + opt(tagV) + "|" + opt(allV) + "|-")
+			f := strings.Split(strings.TrimSpace(resp), ",")
+			if err != nil || len(f) != 5 {
+				res.Disagree(Violation{Sig: "driver-failed|res-css", What: fmt.Sprintf("%v %q", err, resp)})
+				return ""
+			}
+			b, _ := hex.DecodeString(f[4])
+			return string(b)
+		}
+		noop(withHead(mk(tag, "zz9")), find, "css-class", cssWinner("zz9", ""), "tag-default", informative)
+		noop(withHead(mk("mj-all", "zz9")), find, "css-class", cssWinner("", "zz9"), "mj-all", informative)
+		noop(withHead(mk("mj-all", "zz8"), mk(tag, "zz9")), find, "css-class", cssWinner("zz9", "zz8"), "tag-default>mj-all", informative)
 	}
 	// whole documents
 	n := 120
